@@ -187,6 +187,16 @@ def main():
                 neg(lambda: onp.all(make_vjp(fun, -1)(p, a, q, b, scale=s)[0](1.0) == gb)),
                 neg(lambda: onp.all(make_jvp(fun, -3)(p, a, q, b, scale=s)(onp.ones_like(a))[1] == onp.sum(ga))),
             ]
+            # a variadic function: every position, counted from either end
+            def vfun(*zs):
+                return float(len(zs)) * sum((i + 2.0) * anp.sum(z * z) for i, z in enumerate(zs))
+            va, vb, vc = a, b + 1.0, a - b
+            for pos in (0, 1, 2, -1, -2, -3):
+                want = 3.0 * 2.0 * ((pos % 3) + 2.0) * (va, vb, vc)[pos]
+                checks.append(neg(lambda pos=pos, want=want: onp.all(grad(vfun, pos)(va, vb, vc) == want)))
+                checks.append(neg(lambda pos=pos, want=want: onp.all(make_vjp(vfun, pos)(va, vb, vc)[0](1.0) == want)))
+            checks.append(neg(lambda: float(value_and_grad(vfun, -1)(va, vb, vc)[0]) == float(vfun(va, vb, vc))))
+            checks.append(neg(lambda: all(onp.all(u == w) for u, w in zip(grad(vfun, (-1, 0))(va, vb, vc), (3.0 * 2.0 * 4.0 * vc, 3.0 * 2.0 * 2.0 * va)))))
             if not all(bool(c) for c in checks):
                 out["oracle_bad"].append({"oracle": "argnum-algebra", "shape": list(sh), "checks": [bool(c) for c in checks],
                                           "site": {"oracle": "argnum-algebra"}})
